@@ -51,6 +51,7 @@ def accept_opcode(s: "Scanner") -> bool:
         "\n",
         "\t",
         ".",
+        ";",
         EOF,
     ):
         s.pos += 3
